@@ -417,7 +417,7 @@ def check(run, replay_path=None):
         return
 
     # ---- spec -> code: one TLC run enumerates the three domains and checks the laws of the reference
-    n_loc = run.pick(64 * 6 * 2, 64 * 31 * 4)
+    n_loc = run.pick(64 * 7 * 2, 64 * 33 * 4)
     n_foreign = run.pick(4 * 2 * 11 * 17 * 1, 8 * 4 * 11 * 17 * 3)
     payloads, plan = cases_of(run, run.pick('Location_quick.cfg', 'Location.cfg'), expect=n_loc + n_foreign + 24)
     if plan['nw'] != 64 or len(plan['change']) != plan['nc']:
